@@ -80,6 +80,14 @@ def run(ctx, R, tier):
         if o.key == "C06-R3|decoder|chunk-length-unsigned":
             R.add("C05-R6", "decoder|chunk-length-unsigned", o.desc + " (a negative length would keep the cursor from advancing: the worker / the multiplex "
                   "thread would spin forever on one hostile message)", o.ok, o.loc, o.detail)
+    # a peer that stalls in the middle of a message must cost no more than the communication timeout: every socket.timeout handler of the read loop ends the read with
+    # TimeoutError (shared with C17-R2) - one that sleeps and goes on lets a client that sends a few bytes and then nothing hold its worker (or the multiplex loop) for ever
+    from . import c17 as _c17
+    R17_ = Rules("C17")
+    _c17.run(ctx, R17_, tier)
+    for o in R17_.obs:
+        if o.rule == "C17-R2" and o.key.split("|")[1] == "receive_data" and o.key.endswith(":TimeoutError"):
+            R.add("C05-R1b", "receive_data|" + o.key.split("|", 2)[2], o.desc + " (a stalled peer is dropped after COMMTIMEOUT instead of holding a worker or the event loop)", o.ok, o.loc, o.detail)
     ap = ctx.fn("Pyro5.protocol.ReceivingMessage.add_payload")
     apcfg = ctx.cfg(ap)
     aprd = ctx.rd(ap)
